@@ -101,6 +101,9 @@ def first_report_line(se):
     return (ls[-1].strip()[:300] if ls else "")
 
 
+MAX_CRASHING_CASES = 320
+
+
 def run_driver(exe, tier, prop, nshards=None, deadline=None, env=None, case_timeout=20, extra=(), limit=None):
     """enumerate the driver's whole case space on nshards processes.  Returns dict with
     fails [(idx, kind, desc, msg)], stats, samples, outcomes (set of hashes), ncases, done, exhaustive."""
@@ -123,6 +126,7 @@ def run_driver(exe, tier, prop, nshards=None, deadline=None, env=None, case_time
         start(s, 0)
     crashes = []
     restarts = 0
+    gave_up = False
     while procs:
         for s, p in list(procs.items()):
             rc = p.poll()
@@ -139,9 +143,16 @@ def run_driver(exe, tier, prop, nshards=None, deadline=None, env=None, case_time
                 raise SystemExit(2)
             crashes.append((stt["cur"], classify_exit(rc, se), first_report_line(se)))
             restarts += 1
-            if restarts > 2000:
-                sys.stderr.write("too many crashing cases; giving up enumeration\n")
-                raise SystemExit(2)
+            if restarts > MAX_CRASHING_CASES:
+                # a mass failure (e.g. hundreds of hanging cases) is reported from what has been seen; the enumeration is marked as not exhaustive
+                sys.stderr.write("%s: %d crashing/hanging cases; enumeration stopped early\n" % (prop, restarts))
+                for q in procs.values():
+                    q.kill()
+                for q in procs.values():
+                    q.wait()
+                procs.clear()
+                gave_up = True
+                break
             start(s, stt["cur"] + 1)
         time.sleep(0.02)
     fails, samples, stats, outcomes = [], [], {}, set()
@@ -178,7 +189,7 @@ def run_driver(exe, tier, prop, nshards=None, deadline=None, env=None, case_time
         if os.path.exists(oc):
             b = open(oc, "rb").read()
             outcomes.update(struct.unpack("<%dQ" % (len(b) // 8), b[:len(b) // 8 * 8]))
-    if limit is not None and limit < ncases:
+    if (limit is not None and limit < ncases) or gave_up:
         exhaustive = False
     # attribute crashes: replay each twice in a fresh process; both must reproduce identically
     per_kind = {}
